@@ -62,6 +62,13 @@ def make_cases(ctx):
                                                pref), dict(
                     multi=[dflt, extra, pref], ver=ver, etm=True, init="c",
                     sid=None)
+    # every server key type against a client with default suites: the suite
+    # family has to follow the key
+    for ver in ((3, 3), (3, 2), (3, 1)):
+        for k in ("rsa", "rsapss", "ecdsa256", "ecdsa384", "ecdsa521",
+                  "bp256", "ed25519", "ed448", "dsa"):
+            yield "bykey-%d%d-%s" % (ver[0], ver[1], k), dict(
+                bykey=k, ver=ver, etm=True, init="c", sid=None)
     # a ServerHello that names a suite the negotiated version does not
     # define (the client offered it for another version)
     for real, cname, foreign in ((0x1301, "aes128gcm", 0xC02F),
@@ -313,13 +320,21 @@ def run_case(ctx, cid, P):
     if P.get("table"):
         return run_table(ctx)
     sid, ver, etm, init = P["sid"], tuple(P["ver"]), P["etm"], P["init"]
-    if P.get("multi"):
+    if P.get("bykey"):
+        from vt.pair import Flavor, ver_settings
+        if ver < (3, 3) and P["bykey"] in ("ed25519", "ed448", "rsapss"):
+            ctx.count("multi_config_rejected")
+            return
+        fl = Flavor("cert", skey=P["bykey"], cset=ver_settings(ver),
+                    sset=ver_settings(ver))
+        ctx.count("by_key_servers")
+    elif P.get("multi"):
         fl = multi_flavor(P, ver)
         if fl is None:
             ctx.count("multi_config_rejected")
             return
         ctx.count("multi_key_servers")
-
+    if P.get("bykey") or P.get("multi"):
         class _Any(object):
             name = "(any)"
 
@@ -594,6 +609,34 @@ def run_case(ctx, cid, P):
         if bytes(got) != stream:
             ctx.violation(dict(key, clause="decrypted_stream_differs"), W, "")
             return
+        # the next key generation (KeyUpdate) is derived with the same hash
+        from tlslite.constants import KeyUpdateMessageType
+        n1 = len(p.link.recs(d))
+        t = drive.Task("ku", snd.send_keyupdate_request(
+            KeyUpdateMessageType.update_not_requested), ssock)
+        drive.run([t], p.link)
+        pt2 = mon.keystream(cid + "/after-ku", 33)
+        t2 = drive.Task("w", drive.awrite(snd, pt2), ssock)
+        drive.run([t2], p.link)
+        if t.status == "done" and t2.status == "done":
+            secret2 = kdf.tls13_next_secret(su.prf, bytes(secret))
+            after = [r for r in p.link.recs(d)[n1:] if r.type == 23]
+            ctx.ev()
+            ctx.count("keyupdate_records_checked")
+            res = verify_13(su, secret2, after[-1], range(0, 4)) \
+                if after else None
+            if res is None or res[2] != pt2:
+                ctx.violation(dict(key, clause="record_not_decryptable",
+                                   kind=su.cipher_kind, phase="after_keyupdate"),
+                              dict(W, record=after[-1].raw[:120] if after
+                                   else None),
+                              "the record after a KeyUpdate does not open "
+                              "under the next traffic secret derived with "
+                              "%s" % su.prf)
+                return
+        else:
+            ctx.violation(dict(key, clause="keyupdate_failed"), W,
+                          "%r %r" % (t.exc, t2.exc))
     ctx.count("judged")
     ctx.cell("cell", "%s|%s|etm%d|%s" % (su.name, pair.VNAME[ver], etm_on,
                                         init))
